@@ -23,6 +23,52 @@ pub(crate) fn virtual_now() -> Option<StdInstant> {
 }
 
 // ----------------------------------------------------------------------------//
+// Event trace of the running node (`vtrace!` points in handler, socket, bootstrap and refresh).
+
+thread_local! {
+    static TRACE: std::cell::RefCell<Option<Vec<(StdInstant, String)>>> = const { std::cell::RefCell::new(None) };
+    static TRACE_NOTIFY: std::cell::RefCell<Option<Arc<tokio::sync::Notify>>> = const { std::cell::RefCell::new(None) };
+}
+
+/// Start recording on this thread; `notify` is signalled on every event.
+pub fn trace_enable(notify: Option<Arc<tokio::sync::Notify>>) {
+    TRACE.with(|t| *t.borrow_mut() = Some(Vec::new()));
+    TRACE_NOTIFY.with(|n| *n.borrow_mut() = notify);
+}
+
+pub fn trace_disable() {
+    TRACE.with(|t| *t.borrow_mut() = None);
+    TRACE_NOTIFY.with(|n| *n.borrow_mut() = None);
+}
+
+/// Events recorded since the last call, with the (virtual) time at which each happened.
+pub fn trace_take() -> Vec<(StdInstant, String)> {
+    TRACE.with(|t| t.borrow_mut().as_mut().map(std::mem::take).unwrap_or_default())
+}
+
+pub fn trace(event: impl FnOnce() -> String) {
+    let recorded = TRACE.with(|t| {
+        if let Some(log) = t.borrow_mut().as_mut() {
+            log.push((virtual_now().unwrap_or_else(StdInstant::now), event()));
+            true
+        } else {
+            false
+        }
+    });
+    if recorded {
+        TRACE_NOTIFY.with(|n| {
+            if let Some(n) = n.borrow().as_ref() {
+                n.notify_one()
+            }
+        });
+    }
+}
+
+pub(crate) fn hex(bytes: &[u8]) -> String {
+    bytes.iter().map(|b| format!("{b:02x}")).collect()
+}
+
+// ----------------------------------------------------------------------------//
 // The handler, driven one event at a time.
 
 use crate::action::ScheduledTaskCheck;
@@ -145,5 +191,25 @@ impl VHandler {
 
     pub fn store_mut(&mut self) -> &mut AnnounceStorage {
         self.inner.verif_store_mut()
+    }
+}
+
+pub(crate) fn task_text(task: &ScheduledTaskCheck) -> String {
+    match task {
+        ScheduledTaskCheck::TableRefresh => "refresh".into(),
+        ScheduledTaskCheck::LookupTimeout(id) => format!("lookup_timeout {}", hex(id.as_ref())),
+        ScheduledTaskCheck::LookupEndGame(id) => format!("endgame {}", hex(id.as_ref())),
+    }
+}
+
+pub(crate) fn command_text(command: &crate::action::OneshotTask) -> String {
+    use crate::action::OneshotTask::*;
+    match command {
+        StartBootstrap() => "start_bootstrap".into(),
+        CheckBootstrap(_) => "check_bootstrap".into(),
+        StartLookup(l) => format!("start_lookup {} {}", hex(l.info_hash.as_ref()), l.announce),
+        GetLocalAddr(_) => "get_local_addr".into(),
+        GetState(_) => "get_state".into(),
+        LoadContacts(_) => "load_contacts".into(),
     }
 }
